@@ -8,6 +8,9 @@ import driver
 VERIF = driver.VERIF
 
 
+LIB_PROGS = ('hdr_native', 'c13_native', 'nvd_native')     # programs that link the library of the tree under check
+
+
 def build_library(repo):
     """libnifly.a of the tree under check, with ASan/UBSan, cached by the tree stamp"""
     bdir = os.path.join(driver.WORK, 'native_lib_' + driver.tree_stamp())
@@ -39,7 +42,7 @@ def run(unit, prop, values, outdir):
     repo = driver.REPO
     cmd = ['g++', '-std=c++17', '-O1', '-g', '-fsanitize=address,undefined', '-fno-sanitize-recover=undefined',
            '-I' + os.path.join(repo, 'include'), '-I' + os.path.join(repo, 'external'), src, '-o', exe]
-    if spec[0] in ('hdr_native',):
+    if spec[0] in LIB_PROGS:
         lib, err = build_library(repo)
         if lib is None:
             return {'verdict': 'no-replay', 'log': 'the library of the tree under check does not build:\n' + err, 'file': None}
